@@ -373,7 +373,7 @@ def canon(out):
     return RID_RE.sub("", DJCID_RE.sub("", COMMENT_RE.sub("", out)))
 
 
-def run_once(job, target, variant, keep_alloc=False, limit=5.0):
+def run_once(job, target, variant, keep_alloc=False, limit=30.0):
     """one render of `job` with callback invocation `target` raising (None: nobody raises).
     Returns a dict of observations (JSON-able)."""
     from django.template import Context
@@ -401,8 +401,8 @@ def run_once(job, target, variant, keep_alloc=False, limit=5.0):
         obs["nargs"] = len(e.args)
         obs["orig_text"] = TR.raised_text
     except RenderTimeout:
-        obs["res"] = "other"
-        obs["exc"] = "Timeout"
+        # wall-clock watchdog (loaded machine / a looping program): not a C06 matter, reported as inconclusive
+        obs["res"] = "timeout"
     except RecursionError:
         obs["res"] = "other"
         obs["exc"] = "RecursionError"
@@ -699,6 +699,8 @@ def c_fault(target):
 def oracle(obs):
     """list of (what, detail) for every clause of the property that fails on this observation"""
     bad = []
+    if obs["res"] == "timeout":
+        return bad
     if any(obs["tables"]):
         bad.append(("residue", {n: k for n, k in zip(TABLE_NAMES, obs["tables"]) if k}))
     if obs["meta"] or obs["rc"] != 0:
